@@ -103,7 +103,7 @@ def _observed_call(obs, name, inner, args, kwargs):
             capped = last['n'] >= maxiter and not (y is not None and abs(float(y)) < ytol)
             # the bracket collapsed (xtol met) on a point where the residual is nowhere near its tolerance:
             # the function jumps there; the solver reports that point as if it were the root
-            if not capped and y is not None and ytol > 0 and abs(float(y)) > 1e3 * ytol and last['n'] > 2:
+            if not capped and y is not None and ytol > 0 and abs(float(y)) > 1e2 * ytol and last['n'] > 2:
                 capped = True
                 obs['jump_exits'] = obs.get('jump_exits', 0) + 1
     except Exception:
